@@ -63,6 +63,54 @@ func exploreSpace(c *fw.Ctx, prop string, sc *e2x.Scenario, bound int, maxExecPe
 	})
 }
 
+// exploreSpaceSleep: every interleaving (no preemption bound), one representative per class of executions that
+// differ only in the order of independent transitions (sleep sets, e2x.ExploreSleep).
+func exploreSpaceSleep(c *fw.Ctx, prop string, sc *e2x.Scenario, maxExecPerPart int64, what string) {
+	name := sc.Name + "/all-interleavings"
+	rule := fmt.Sprintf("%s — ALL schedules, no preemption bound: stateless DFS with sleep sets over the scheduling points of the real code, one representative of every class of executions that differ only in the order of independent transitions (independent = operations on different synchronisation / I/O objects, neither global, the executed one neither logging nor observing scheduler-wide state); tree split into subtrees, one case each; executions cut short because every enabled thread is asleep are counted as pruned, not judged", what)
+	c.Space(name, rule, true, func(emit func(func(*fw.R))) {
+		parts, internal := e2x.PartitionSleep(sc, 2)
+		if internal != "" {
+			emit(func(r *fw.R) { r.Fail("internal/"+name, "partition: %s", internal) })
+			return
+		}
+		for _, pt := range parts {
+			pt := pt
+			emit(func(r *fw.R) {
+				st := e2x.NewStats()
+				st.Tick = r.Alive
+				e2x.ExplorePartSleep(sc, pt, st, maxExecPerPart)
+				if st.Internal != "" {
+					r.Fail("internal/"+name, "%s", st.Internal)
+					return
+				}
+				if st.Executions > 0 {
+					r.Evals(st.Executions - 1)
+					r.NontrivialN(st.Executions - 1)
+				}
+				r.Nontrivial()
+				r.Count("executions", st.Executions)
+				r.Count("executions pruned by sleep sets", st.Pruned)
+				r.Count("transitions", st.Transitions)
+				r.Count("states", int64(len(st.States)))
+				for o, n := range st.Outcomes {
+					r.Count("outcome: "+o, n)
+				}
+				if st.Capped {
+					r.Count("subtrees cut by the per-subtree execution cap", 1)
+					r.NotExhaustive()
+				}
+				for _, v := range st.Violations {
+					r.Fail(v.Key+"/"+sc.Name, "%s\nchoices: %v\nschedule:\n%s", v.Detail, v.Choices, v.Schedule)
+				}
+				r.Sample(func() any {
+					return map[string]any{"scenario": sc.Name, "subtree_prefix": pt.Prefix, "leaf": pt.Leaf, "executions": st.Executions, "outcomes": keys(st.Outcomes), "first_schedule_of_this_subtree": st.FirstSchedule}
+				})
+			})
+		}
+	})
+}
+
 func keys(m map[string]int64) []string {
 	var k []string
 	for s := range m {
